@@ -122,7 +122,7 @@ def run_case(case):
         bounds.append(bounds[-1] + len(f))
     base, berr, bleft = deliver(framing, direction, uid, frames)
     want = [(f['pdu'], uid, f['tid'] if framing == 'tcp' else None, 0 if framing == 'tcp' else None) for f in case['frames']]
-    if berr is not None or base != want or bleft:
+    if berr is not None or base != want:
         return Outcome([], labels + ['excluded-baseline-not-clean'], False)
     chunks = chunks_of(stream, case['cut'], bounds)
     inner = set(bounds[1:-1])
@@ -152,5 +152,5 @@ def run_case(case):
         discs.append(Disc('deliveries-differ', '%s %s: one-frame-per-read delivers %d messages, cuts at %r (frame ends %r) deliver %d: %r' % (
             framing, direction, len(base), cutpos, bounds[1:], len(got), [g[0][:20] if g[0] else g[0] for g in got])))
     elif left:
-        discs.append(Disc('buffer-left', '%s %s: %d bytes left buffered after the whole stream (cuts %r)' % (framing, direction, left, cutpos)))
+        labels.append('bytes-left-buffered')     # recorded, not judged: the property speaks about delivered messages only
     return Outcome(discs, labels, nt or multi)
